@@ -10,6 +10,7 @@ import Ajson.Spec.WF
 import Ajson.Proofs.MutBasics
 import Ajson.Proofs.WFInv
 import Ajson.Proofs.WFRemove
+import Ajson.Proofs.WFMove
 import Ajson.Model.Decode
 
 namespace Ajson.Props.C05
@@ -62,6 +63,14 @@ theorem C05_inv_append_array {h : Heap} (hs : Struct h) (n value : Nat) (hn : n 
     (harr : (h.get n).type = .array) (hloop : h.isParentOrSelfNode n value = false) (hroot : (h.get value).parent = none) :
     Struct (h.appendArray n [value]).1 ∧ (h.appendArray n [value]).2 = .ok () :=
   struct_appendArray_one hs n value hn hv harr hloop hroot
+
+/-- **AppendArray of any node** — detached, or attached anywhere (then it is moved: removed from its container, which is
+renumbered if it is an array, and appended here) — keeps the invariant and acyclicity and succeeds, whenever the loop guard lets
+the request pass -/
+theorem C05_inv_append_array_any {h : Heap} (hs : Struct h) (ha : Acyc h) (n value : Nat) (hn : n < h.size) (hv : value < h.size)
+    (harr : (h.get n).type = .array) (hloop : h.isParentOrSelfNode n value = false) :
+    (h.appendArray n [value]).2 = .ok () ∧ Struct (h.appendArray n [value]).1 ∧ Acyc (h.appendArray n [value]).1 :=
+  struct_appendArray_any hs ha n value hn hv harr hloop
 
 /-- a read fills at most a cache cell, which the invariant does not look at -/
 theorem C05_inv_cache_fill {h : Heap} (hs : Struct h) (n : Id) (c : Option CacheVal) :
